@@ -222,9 +222,11 @@ def _handler_converts(tr: ast.Try, f, et: ExcTypes) -> bool:
     return covered == need
 
 
-def rule_r3(rep, program, et):
-    r = rep.rule("R3", "every may-raise statement inside a solver's iteration lies in a try that converts ValueError and mici LinAlgError into ConvergenceError", floor=20)
+def rule_r3(rep, program, et, prop=PROP, rule="R3", only_projection=False):
+    r = rep.rule(rule, "every may-raise statement inside a solver's iteration lies in a try that converts ValueError and mici LinAlgError into ConvergenceError", floor=12 if only_projection else 20)
     for f in solver_functions(program):
+        if only_projection and "projection" not in f.name:
+            continue
         cfg = build_cfg(f, et)
         # handler bodies are excluded
         hbody = set()
@@ -242,7 +244,63 @@ def rule_r3(rep, program, et):
             ok = any(_handler_converts(tr, f, et) for tr in n.in_try)
             r.inst({"function": f.name, "stmt": norm(n.ast)[:60]})
             if not ok:
-                r.violate(PROP, f"{f.name}:unguarded:{norm(n.ast)[:50]}", "statement of the solver iteration is not covered by a handler converting ValueError/LinAlgError to ConvergenceError: a foreign exception type escapes the solver", node=n.ast, file=f.file)
+                r.violate(prop, f"{f.name}:unguarded:{norm(n.ast)[:50]}", "statement of the solver iteration is not covered by a handler converting ValueError/LinAlgError to ConvergenceError: a foreign exception type escapes the solver", node=n.ast, file=f.file)
+    return r
+
+
+def rule_r9(rep, program, et):
+    """Sub-steps outside the iterative solvers (explicit kicks of the implicit integrators, the cotangent
+    projection of the constrained integrator) evaluate system methods that build matrix objects from the
+    user's Jacobian / metric values; those constructors raise ValueError / mici LinAlgError on non-finite
+    input.  Neither is an IntegratorError, so unless the step converts them they escape the transition."""
+    r = rep.rule("R9", "every _step runs under a handler converting ValueError / mici LinAlgError into an IntegratorError (sub-steps outside the solvers included)", floor=4)
+    k = program.cls("Integrator")
+    step = k.methods["step"]
+
+    def converts(tr, f):
+        need = {"builtins.ValueError", "mici.LinAlgError"}
+        covered = set()
+        for h in tr.handlers:
+            hts = et.handler_types(h, f.module)
+            if hts is None:
+                continue
+            raises = [s_ for s_ in ast.walk(h) if isinstance(s_, ast.Raise)]
+            conv = any((et.raised_class(s_, f.module) or "").startswith("mici.") and et.is_subclass(et.raised_class(s_, f.module), "mici.IntegratorError") for s_ in raises)
+            if conv:
+                covered |= {nd for nd in need if any(et.is_subclass(nd, t) for t in hts)}
+        return covered == need
+
+    def covered_call(f, pred):
+        """every call selected by pred in f lies in the body of a converting try"""
+        pm = {ch: par for par in ast.walk(f.node) for ch in ast.iter_child_nodes(par)}
+        calls = [c for c in ast.walk(f.node) if isinstance(c, ast.Call) and pred(c)]
+        res = []
+        for c in calls:
+            cur, ok = c, False
+            while cur in pm:
+                par = pm[cur]
+                if isinstance(par, ast.Try) and any(cur is x or any(cur is y for y in ast.walk(x)) for x in par.body) and converts(par, f):
+                    ok = True
+                cur = par
+            res.append((c, ok))
+        return res
+
+    base = covered_call(step, lambda c: norm(c.func) == "self._step")
+    if not base:
+        raise AnalysisError("Integrator.step: call of self._step not found")
+    base_ok = all(ok for _c, ok in base)
+    r.inst({"site": "Integrator.step", "self._step under a converting handler": base_ok})
+    for kk in program.subclasses("Integrator", concrete_only=True):
+        f = kk.resolve("_step")
+        if kk.resolve("step") is not step:
+            raise AnalysisError(f"{kk.name} overrides step")
+        # sub-steps outside solvers: any call of a system method / private sub-step in the concrete _step
+        own = covered_call(f, lambda c: isinstance(c.func, ast.Attribute))
+        own_ok = bool(own) and all(ok for _c, ok in own)
+        needs = kk.is_subclass_of("ImplicitLeapfrogIntegrator") or kk.is_subclass_of("ImplicitMidpointIntegrator") or kk.is_subclass_of("ConstrainedLeapfrogIntegrator")
+        r.inst({"integrator": kk.name, "has sub-steps outside solvers that build matrices": needs, "covered": base_ok or own_ok})
+        if needs and not (base_ok or own_ok):
+            r.violate(PROP, f"{kk.name}._step:foreign-exception-escapes", f"{kk.name}._step runs sub-steps outside the iterative solvers (explicit kicks / the cotangent projection) that evaluate matrix-valued system methods; a non-finite Jacobian or metric makes their constructors raise ValueError / mici LinAlgError, and neither Integrator.step nor {kk.name}._step converts these into an IntegratorError: the exception escapes the transition and aborts the chain instead of being recorded as a rejection", node=f.node, file=f.file)
     return r
 
 
@@ -625,6 +683,7 @@ def run(rep, program: Program, tier: str) -> None:
     rep.isolate(rule_r5, rep, program, et)
     rep.isolate(rule_r6, rep, program, et)
     rep.isolate(rule_r7, rep, program)
+    rep.isolate(rule_r9, rep, program, et)
     # a failed reversibility check can only be contained and recorded if the check is made: every implicit /
     # retraction sub-step is covered by a complete check (shared with C02-R4)
     from . import c02
